@@ -65,14 +65,21 @@ manifest = {
          "serves_properties": [c["property_id"] for c in checks if c["engine"] == "E1"],
          "kind_free_text": "deviation-bounded exhaustive enumeration of a finite per-branch input/program alphabet, "
                            "every element executed on the real implementation and judged against a numpy reference model"},
-        {"name": "E2", "path": "/verif/mc/hist.py",
+        {"name": "E2", "path": "/verif/mc/props/c11.py",
          "serves_properties": [c["property_id"] for c in checks if c["engine"] == "E2"],
-         "kind_free_text": "explicit-state exploration of operation histories on the real implementation "
-                           "(stateless enumeration to a depth + BFS with canonical state hashing)"},
+         "kind_free_text": "stateless exploration of operation / edit histories on the real implementation: depth-first "
+                           "search that forks the process holding the live objects at every node, every history up to "
+                           "the depth bound executed (count checked against the closed form), fresh-process oracle from "
+                           "a pristine zygote (mc/zygote.py); C17 uses the same scheme in mc/props/c17.py"},
         {"name": "E3", "path": "/verif/mc/procsched.py",
          "serves_properties": [c["property_id"] for c in checks if c["engine"] == "E3"],
          "kind_free_text": "controlled scheduler over real OS processes: all interleavings up to a preemption bound "
-                           "and all kill points, scheduling points from audit hooks and a scripted compiler"},
+                           "and all kill / interrupt points, scheduling points from audit hooks and a scripted compiler"},
+        {"name": "E4", "path": "/verif/mc/threadsched.py",
+         "serves_properties": ["C02"],
+         "kind_free_text": "controlled scheduler over real Python threads (sys.settrace line events of the files under "
+                           "test, one thread runs at a time): all interleavings up to a preemption bound; used by part C "
+                           "of the C02 check"},
     ],
     "checks": checks,
     "notes": "All checks: cwd=/verif, ./check <id> --tier quick|thorough; exit 0 held / 1 VIOLATION / 2 harness error. "
